@@ -13,8 +13,10 @@ TECHNIQUE = 'offline trace checker over tagged groups of related executions of t
 RULE = ('cases = groups of related calls: lin (a, b, alpha*a+beta*b; alpha,beta in {+-2^k, random, 0, -1}), scale (spectra of a '
         'and alpha*a), causal (two records equal up to a split index), shift (k prepended zeros on a record starting at 0), '
         'perm/batch (period list permuted, reversed, split into singletons/partitions), refine (all integer factors 2..8, own '
-        'np.interp), objlin (AccSignal spectra before/after the values are replaced by alpha*a through the public API). '
-        'Records: 14 shape classes, n in [4,400] (thorough up to 5000), dt log-uniform/nice, T/dt over [0.2,2e4], '
+        'np.interp), objlin (AccSignal spectra before/after the values are replaced by alpha*a through the public API), objrefine '
+        '(AccSignal spectra with min_dt_ratio = r in 2..8 against min_dt_ratio = 1, first period chosen so that the step rule selects factor r, '
+        'half of the steps drawn where dt/(dt/r) != r in floating point, half of the records tail-heavy). '
+        'Records: 14 shape classes, n in [4,400] (thorough up to 5000), 1..6 periods per group (4 %: 31..129 at and around powers of two), dt log-uniform/nice, T/dt over [0.2,2e4], '
         'xi in {0,.05,.5,.99,.99999,1-1e-7,1-1e-10,U(0,1)}, integer-valued period containers with a leading 0 in the permutation/batching groups, extreme time bases. distinct = digest of the group inputs; non-trivial = base record not identically zero.')
 ASSUMPTIONS = ['relations are judged with rtol 1e-9 (linearity) / 1e-12 (causality, shift, permutation, batching; currently '
                'bit-identical, the count of bit-identical groups is reported) relative to the natural response scale '
@@ -25,11 +27,12 @@ ASSUMPTIONS = ['relations are judged with rtol 1e-9 (linearity) / 1e-12 (causali
 MIN_EVALS = {'quick': {'lin.series': 1500, 'scale.spectra': 450, 'causal.prefix-unchanged': 600, 'shift.delayed-by-k': 600,
                        'perm.row-depends-on-period-only': 200, 'batch.row-depends-on-period-only': 550,
                        'refine.original-instants-unchanged': 1400, 'refine.spectra-never-decrease': 8000,
-                       'objlin.spectra-scale': 50},
+                       'objlin.spectra-scale': 50, 'objrefine.spectra-never-decrease': 1200},
              'thorough': {'lin.series': 22000, 'scale.spectra': 6500, 'causal.prefix-unchanged': 9000,
                           'shift.delayed-by-k': 9000, 'perm.row-depends-on-period-only': 3000,
                           'batch.row-depends-on-period-only': 8000, 'refine.original-instants-unchanged': 21000,
-                          'refine.spectra-never-decrease': 120000, 'objlin.spectra-scale': 750}}
+                          'refine.spectra-never-decrease': 120000, 'objlin.spectra-scale': 750,
+                          'objrefine.spectra-never-decrease': 18000}}
 K3 = 'C02/sa-pga-substitution'
 EPS = float(np.finfo(float).eps)
 CTX = None
@@ -118,6 +121,13 @@ def draw_base(rng, tier, need_zero_start=False):
     if rng.random() < 0.1:
         dt = float(10 ** (rng.uniform(-9, -3) if rng.random() < 0.6 else rng.uniform(0, 3)))
     P = int(rng.integers(1, 7))
+    if rng.random() < 0.04:        # period-list length at and around vectorisation block sizes
+        P = int(rng.choice([31, 32, 33, 63, 64, 65, 127, 128, 129]))
+        if n > 150:
+            x, n = x[:150], 150
+            if need_zero_start:
+                x = x.copy()
+                x[0] = 0.0
     ratios = np.clip(10 ** rng.uniform(np.log10(0.2), np.log10(2e4), size=P), 0.2 * (1 + 1e-9), 2e4)
     for k in range(P):
         if rng.random() < 0.2:
@@ -540,9 +550,63 @@ def g_objlin(ctx, eqsig, g):
     ctx.check(okk, 'objlin.spectra-scale', wit, msg)
 
 
+def g_objrefine(ctx, eqsig, g):
+    """object level: AccSignal.gen_response_spectrum(min_dt_ratio=r) integrates an internally refined record; since refinement
+    leaves the response at the original instants unchanged, the spectra it reports are never below those of min_dt_ratio=1
+    (the raw samples), for every factor the step rule selects (2..8), every dt (incl. those where dt/(dt/r) != r in floating
+    point) and records whose strongest response comes at the very end (nothing of the record may be lost on the way)"""
+    rng = ctx.rng
+    a, cls, dt, periods, xi = draw_base(rng, 'quick')
+    r = int(rng.integers(2, 9))
+    if rng.random() < 0.5:
+        dt = gen.awkward_dt(rng, r)
+        cls += '/awkward-dt'
+    n = len(a)
+    tail = rng.random() < 0.5
+    if tail:
+        a = a * ((np.arange(n) + 1.0) / n) ** 3
+        cls += '/tail-heavy'
+    if not np.any(a):
+        a = a.copy()
+        a[-1] = 1.0
+    P = int(rng.integers(1, 6))
+    tmin = rng.uniform(0.5, 20.0 / r) * dt
+    periods = np.sort(np.concatenate([[tmin], tmin * 10 ** rng.uniform(0, np.log10(300 * dt / tmin), size=P - 1)]))
+    wit = lambda: {'kind': 'objrefine', 'a': a, 'r': r, 'dt': dt, 'periods': periods, 'xi': xi}
+    ctx.case(core.digest(a, r, dt, periods, xi, 'objrefine'), nontrivial=True, cls='objrefine/' + cls,
+             sample={'kind': 'objrefine', 'n': n, 'r': r, 'dt': dt, 'T/dt': periods / dt, 'xi': xi})
+    ctx.keyset('objrefine (r, int(dt/(dt/r))==r)').add((r, int(dt / (dt / r)) == r))
+    sig = eqsig.AccSignal(as_form(rng, a), dt, response_times=periods)
+    order = [1, r] if rng.random() < 0.5 else [r, 1]
+    S = {}
+    for ratio in order:
+        if rng.random() < 0.5:
+            sig.gen_response_spectrum(xi=xi, min_dt_ratio=ratio)
+        else:
+            sig.generate_response_spectrum(response_times=periods, xi=xi, min_dt_ratio=ratio)
+        S[ratio] = [np.array(sig.s_d, dtype=float), np.array(sig.s_v, dtype=float), np.array(sig.s_a, dtype=float)]
+    amax = float(np.max(np.abs(a))) + 1e-300
+    for j, T in enumerate(periods):
+        w = 2 * np.pi / T
+        su = max(float(S[r][0][j]), float(S[1][0][j]), amax / w ** 2)
+        E1 = envelope(T, dt, n, xi, amax)
+        E2 = envelope(T, dt / r, n * r, xi, amax)
+        au = (stated_tol(T, dt, n) + stated_tol(T, dt / r, n * r)) * su + E1[0] + E2[0]
+        for q, name in enumerate(('s_d', 's_v', 's_a')):
+            s1, sr = float(S[1][q][j]), float(S[r][q][j])
+            okk = sr >= s1 - au * w ** q
+            fin = None
+            if not okk and q == 2 and T < 6 * dt * (1 + 1e-12) and abs(s1 - amax) <= 1e-12 * amax \
+                    and abs(sr - w * w * float(S[r][0][j])) <= 1e-9 * sr + 1e-300:
+                fin = K3       # raw side substitutes PGA (T < 6 dt), refined side reports w^2 S_d: the open finding
+            ctx.check(okk, 'objrefine.spectra-never-decrease', wit,
+                      'AccSignal %s row %d T/dt=%.4g xi=%g dt=%r: min_dt_ratio=%d gives %r < %r (min_dt_ratio=1) - %.3g'
+                      % (name, j, T / dt, xi, dt, r, sr, s1, au * w ** q), finding=fin)
+
+
 GROUPS = [('lin', g_lin, 3), ('scale', g_scale, 1.5), ('causal', g_causal, 1.5), ('shift', g_shift, 1.5),
           ('perm', lambda c, e, g: g_perm(c, e, g, False), 1.5), ('batch', lambda c, e, g: g_perm(c, e, g, True), 1.5),
-          ('refine', g_refine, 3), ('objlin', g_objlin, 0.6)]
+          ('refine', g_refine, 3), ('objlin', g_objlin, 0.6), ('objrefine', g_objrefine, 1.2)]
 
 
 def run_shard(ctx):
@@ -561,7 +625,8 @@ def run_shard(ctx):
             trace.clear()
             ctx.exception({'lin': 'lin.series', 'scale': 'scale.spectra', 'causal': 'causal.prefix-unchanged', 'shift': 'shift.delayed-by-k',
                            'perm': 'perm.row-depends-on-period-only', 'batch': 'batch.row-depends-on-period-only',
-                           'refine': 'refine.original-instants-unchanged', 'objlin': 'objlin.spectra-scale'}[name],
+                           'refine': 'refine.original-instants-unchanged', 'objlin': 'objlin.spectra-scale',
+                           'objrefine': 'objrefine.spectra-never-decrease'}[name],
                           {'kind': name, 'group': g, 'shard': ctx.shard, 'seed': ctx.seed, 'note': 'exception inside group driver'}, e)
     ctx.note('monitored_calls', dict(attach.CALLS))
 
@@ -620,6 +685,14 @@ def replay(w):
             P1, P2 = S.pseudo_response_spectra(a, dt, p, xi), S.pseudo_response_spectra(al * np.asarray(a), dt, p, xi)
             if np.max(np.abs(np.asarray(P2[0]) - abs(al) * np.asarray(P1[0]))) > 1e-8 * (np.max(np.abs(P1[0])) * abs(al) + 1e-300):
                 out.append('scale: S_d does not scale with |alpha|')
+            if kind == 'objrefine':
+                sig = eqsig.AccSignal(a, dt, response_times=p)
+                sig.gen_response_spectrum(xi=xi, min_dt_ratio=1)
+                s1 = np.array(sig.s_d)
+                sig.gen_response_spectrum(xi=xi, min_dt_ratio=w['r'])
+                s2 = np.array(sig.s_d)
+                if np.any(s2 < s1 * (1 - 1e-6) - 1e-300):
+                    out.append('objrefine: S_d with min_dt_ratio=%d below the raw-sample S_d' % w['r'])
             if kind == 'objlin':
                 sig = eqsig.AccSignal(a, dt, response_times=p[p != 0])
                 s1 = np.array(sig.s_d)
